@@ -147,7 +147,8 @@ Proof. intros G fuel n l w. apply lang_upto_complete. Qed.
     [table_ok] asks for exist). *)
 Theorem C11_lr0_closure :
   forall (ps : list prod) (I : list item) (x : item),
-    (In x I -> In x (closure ps I)) /    (In x (closure ps I) -> In x I \/ (snd x = 0 /\ In (fst x) ps)).
+    (In x I -> In x (closure ps I)) /\
+    (In x (closure ps I) -> In x I \/ (snd x = 0 /\ In (fst x) ps)).
 Proof. intros ps I x. split; [apply closure_incl|apply closure_items]. Qed.
 
 Theorem C11_lr0_access_strings :
